@@ -819,7 +819,9 @@ func (e *env) checkAll() {
 			if blk != nil {
 				got = blk.ID()
 			}
-			x.Fail("C08", "lib-not-on-main-chain", "online", fmt.Sprintf("node %d reports LIB %d/%s but its main chain has %s at that height", i, no, hash, got), e.step)
+			var dump string
+			n.Do(func() { dump = n.DP.VerifLibStatusDump() })
+			x.Fail("C08", "lib-not-on-main-chain", "online", fmt.Sprintf("node %d reports LIB %d/%s but its main chain has %s at that height (status: %s)", i, no, hash, got, dump), e.step)
 			return
 		}
 		// everything at or below a reported LIB stays
